@@ -1,16 +1,20 @@
 package main
 
 import (
+	"crypto/sha256"
 	"encoding/binary"
 	"encoding/json"
 	"fmt"
 	"reflect"
+	"runtime"
 	"sort"
 	"strings"
+	"sync"
 	"time"
 
 	jwt "github.com/nats-io/jwt/v2"
 	v1 "github.com/nats-io/jwt/v2/v1compat"
+	"github.com/nats-io/nkeys"
 	"verifharness/schema"
 )
 
@@ -302,12 +306,82 @@ func runC13(c *Ctx) {
 			c.sample(map[string]interface{}{"signing_keys": nk, "revocations": len(revs), "tiers": len(tiers), "mappings": len(maps), "groups": len(tokens)})
 		}
 	}
+	// SEVERAL callers encoding at once (each its own object, large enough that encoding takes a while): what a caller gets
+	// is what its object gives when encoded alone - the tokens of one second are one token, and its id is the hash of
+	// that object's own standard fields
+	{
+		workers, reps := 64, 8
+		if c.thorough() {
+			reps = 40
+		}
+		nameBytes := 3 << 19 // a megabyte and a half; every caller's own letters (what one caller encodes must not reach another's token)
+		type res struct {
+			tok string
+			iat int64
+			bad string
+		}
+		out := make([][]res, workers)
+		// (several callers per processor, on several processors: they interrupt one another in the middle of an Encode)
+		if prev := runtime.GOMAXPROCS(0); prev < 8 {
+			runtime.GOMAXPROCS(8)
+			defer runtime.GOMAXPROCS(prev)
+		}
+		var wg sync.WaitGroup
+		for wi := 0; wi < workers; wi++ {
+			wg.Add(1)
+			go func(wi int) {
+				defer wg.Done()
+				uc := jwt.NewUserClaims(kr.by["user"].pub)
+				uc.Name = strings.Repeat(string(rune('a'+wi%26)), nameBytes) + fmt.Sprint("-", wi)
+				for r := 0; r < reps; r++ {
+					tok, err := uc.Encode(kr.by["account"].kp)
+					if err != nil {
+						out[wi] = append(out[wi], res{bad: err.Error()})
+						continue
+					}
+					x := res{tok: fmt.Sprintf("%x", sha256.Sum256([]byte(tok))), iat: uc.IssuedAt} // (a digest: the tokens are megabytes each)
+					if id, _ := ownID(uc.ClaimsData); id != uc.ID {
+						x.bad = fmt.Sprintf("the id stamped is %q, the hash of the object's own standard fields is %q", uc.ID, id)
+					}
+					out[wi] = append(out[wi], x)
+				}
+			}(wi)
+		}
+		wg.Wait()
+		for wi := range out {
+			first := map[int64]string{}
+			for _, x := range out[wi] {
+				c.sum.Evaluations++
+				c.sum.ImplChecks++
+				switch {
+				case x.bad != "":
+					c.violation("C13: large equal content encoded by several callers at once: "+x.bad, map[string]interface{}{"worker": wi, "name_bytes": nameBytes})
+				case first[x.iat] == "":
+					first[x.iat] = x.tok
+				case first[x.iat] != x.tok:
+					c.violation("C13: equal content encoded with the same key in the same second gives different tokens (several callers encoding at once)",
+						map[string]interface{}{"worker": wi, "name_bytes": nameBytes, "issued_at": x.iat})
+				}
+				c.count("large_concurrent_encode")
+			}
+		}
+	}
 	w.flush()
 	c.sum.DistinctNontriv = len(distinct)
 	c.sum.Rule = fmt.Sprintf("%d contents (account with 2-6 plain/scoped signing keys, revocations, tiers, mappings, export revocations; generic data) each built through %d random insertion permutations of every unordered collection (a quarter of the builds each: encoded before with the same key and other standard fields / with another key / carrying stale stamps / fresh) and encoded %d times per build with the same key; all tokens that share a decoded issue time must be byte-identical (pairs straddling a second fall into different groups); non-trivial = distinct token text", contents, orders, repeats)
 }
 
 // ---------------------------------------------------------------- C14
+
+// sealedSigner signs and names its public key; its seed and private key stay where they are
+type sealedSigner struct{ nkeys.KeyPair }
+
+func (sealedSigner) Seed() ([]byte, error) {
+	return nil, fmt.Errorf("the seed does not leave the key store")
+}
+func (sealedSigner) PrivateKey() ([]byte, error) {
+	return nil, fmt.Errorf("the private key does not leave the key store")
+}
 
 func uplTerm(em *schema.Emitter, u *jwt.UserPermissionLimits) string {
 	t := schemaBuilder.Of(reflect.TypeOf(*u))
@@ -531,7 +605,14 @@ func runC14(c *Ctx) {
 					if tags != nil && c.Rng.Intn(2) == 0 {
 						tags = append(make([]string, 0, 8), tags...) // (with spare capacity behind it)
 					}
-					tok, err := jwt.IssueUserJWT(kr.by[sr].kp, acct, user, name, d, tags...)
+					// (the signer as the nkeys package makes it, or one that signs and names its public key but keeps its seed to
+					// itself - a key held by a key-management service: the rule is about roles, which the public key carries)
+					var signerKp nkeys.KeyPair = kr.by[sr].kp
+					sealed := rep%2 == 1 || (reps == 1 && c.Rng.Intn(3) == 0)
+					if sealed {
+						signerKp = sealedSigner{signerKp}
+					}
+					tok, err := jwt.IssueUserJWT(signerKp, acct, user, name, d, tags...)
 					hi := time.Now().UnixNano()
 					if strings.Join(tags, "\x00") != strings.Join(tagsBefore, "\x00") {
 						c.violation("C14: IssueUserJWT rewrote the caller's tag list", map[string]interface{}{"tags_before": tagsBefore, "tags_after": tags})
@@ -539,7 +620,7 @@ func runC14(c *Ctx) {
 					ok := err == nil
 					c.sum.Evaluations++
 					c.sum.ImplChecks++
-					inp := map[string]interface{}{"signer_role": sr, "account_role": ar, "user_role": ur, "name": name, "duration": int64(d), "tags": tags, "ok": ok}
+					inp := map[string]interface{}{"signer_role": sr, "account_role": ar, "user_role": ur, "name": name, "duration": int64(d), "tags": tags, "ok": ok, "signer_keeps_its_seed": sealed}
 					wantOK := sr == "account" && strings.HasPrefix(ar, "account") && strings.HasPrefix(ur, "user")
 					if ok != wantOK {
 						c.violation("C14: IssueUserJWT succeeds / fails against the role rule", inp)
